@@ -123,7 +123,7 @@ def graph_case(draw):
             c["gd"] = [draw(logu(0.3, 3.0)) for _ in range(4)]
         if g == "G3":
             c["bd"] = {"R": [draw(logu(0.5, 3)) for _ in range(2)], "delta": [draw(logu(0.3, 2)) for _ in range(2)], "s": [draw(fl(0.1, 0.8)) for _ in range(2)],
-                       "rho": [0.0, draw(fl(0.1, 0.9))], "offset": draw(logu(0.1, 2.0))}
+                       "rho": [0.0, draw(fl(0.1, 0.9))], "offset": draw(logu(0.1, 2.0)), "times": draw(st.sampled_from(["default", "relative", "absolute"]))}
     else:
         c["base"] = [draw(fl(-2, 2)) for _ in range(6)]
         c["pos"] = [draw(logu(0.2, 5)) for _ in range(3)]
@@ -145,15 +145,19 @@ def build_spec(c):
             tt.P("base", c["base"]),
             {"id": "v1", "type": "ViewParameter", "parameter": "base", "indices": "0:3"},
             {"id": "v2", "type": "ViewParameter", "parameter": "base", "indices": "3:6"},
+            {"id": "v3", "type": "ViewParameter", "parameter": "base", "indices": "1:5"},
+            # consumers that reach the base parameter directly and through an overlapping sibling view
+            {"id": "nbase", "type": "Distribution", "distribution": "torch.distributions.Normal", "x": "base", "parameters": {"loc": tt.P("lb", [0.1, 0.2, -0.1, 0.0, 0.3, -0.3]), "scale": tt.P("sb", [2.0])}},
+            {"id": "n3", "type": "Distribution", "distribution": "torch.distributions.Normal", "x": "v3", "parameters": {"loc": tt.P("l3", [-0.2]), "scale": tt.P("s3b", [1.3])}},
             {"id": "n1", "type": "Distribution", "distribution": "torch.distributions.Normal", "x": "v1",
              "parameters": {"loc": tt.P("loc", [0.3]), "scale": {"id": "scale", "type": "TransformedParameter", "transform": "torch.distributions.ExpTransform", "x": tt.P("scale.unres", [0.1])}}},
             {"id": "n2", "type": "Distribution", "distribution": "torch.distributions.Normal", "x": "v2", "parameters": {"loc": "v1", "scale": tt.P("s2", [1.5, 0.7, 1.1])}},
             {"id": "gam", "type": "Distribution", "distribution": "torch.distributions.Gamma", "x": [tt.P("a", c["pos"][:2]), tt.P("b", c["pos"][2:])],
              "parameters": {"concentration": tt.P("conc", [2.0, 2.5, 3.0]), "rate": "scale"}},
             {"id": "ln", "type": "Distribution", "distribution": "torch.distributions.LogNormal", "x": "scale", "parameters": {"loc": "loc", "scale": tt.P("s3", [0.8])}},
-            {"id": "joint", "type": "JointDistributionModel", "distributions": ["n1", "n2", "gam", "ln", "scale"]},
+            {"id": "joint", "type": "JointDistributionModel", "distributions": ["n1", "n2", "n3", "nbase", "gam", "ln", "scale"]},
         ]
-        dom = {"base": "real", "loc": "real", "scale.unres": "real", "s2": "pos", "a": "pos", "b": "pos", "conc": "pos", "s3": "pos"}
+        dom = {"base": "real", "loc": "real", "scale.unres": "real", "s2": "pos", "a": "pos", "b": "pos", "conc": "pos", "s3": "pos", "lb": "real", "sb": "pos", "l3": "real", "s3b": "pos"}
         return spec, dom
     like = c["like"]
     spec = phylo.like_spec(like)
@@ -200,8 +204,14 @@ def build_spec(c):
         bd = c["bd"]
         spec.append({"id": "origin", "type": "TransformedParameter", "transform": "torch.distributions.AffineTransform",
                      "parameters": {"loc": "root_height", "scale": 1.0}, "x": tt.P("origin.offset", [bd["offset"]])})
-        spec.append({"id": "bdsk", "type": "BDSKModel", "tree_model": "tree", "R": tt.P("bd.R", bd["R"]), "delta": tt.P("bd.delta", bd["delta"]), "s": tt.P("bd.s", bd["s"]),
-                     "rho": tt.P("bd.rho", bd["rho"]), "origin": "origin"})
+        bdsk = {"id": "bdsk", "type": "BDSKModel", "tree_model": "tree", "R": tt.P("bd.R", bd["R"]), "delta": tt.P("bd.delta", bd["delta"]), "s": tt.P("bd.s", bd["s"]),
+                "rho": tt.P("bd.rho", bd["rho"]), "origin": "origin"}
+        if bd.get("times") == "relative":
+            bdsk["times"] = {"id": "bd.times", "type": "Parameter", "tensor": [0.0, 0.55], "_comment": "fractions of the origin"}
+            bdsk["relative_times"] = True
+        elif bd.get("times") == "absolute":
+            bdsk["times"] = [0.0, 0.37]
+        spec.append(bdsk)
         joint.append("bdsk")
     spec.append({"id": "joint", "type": "JointDistributionModel", "distributions": joint})
     for lid in leaves_of(spec):
@@ -274,7 +284,8 @@ def observables(dic):
         if isinstance(o, TreeModel):
             out["branch_lengths:" + k] = o
         if isinstance(o, SiteModel):
-            out["rates:" + k] = o
+            out["rates:" + k] = o  # rates() then probabilities()
+            out["probs:" + k] = o  # probabilities() then rates()
     return out
 
 
@@ -288,6 +299,9 @@ def observe(name, o):
         return arr(o.branch_lengths())
     if kind == "rates":
         return np.concatenate([arr(o.rates()).reshape(-1), arr(o.probabilities()).reshape(-1)])
+    if kind == "probs":
+        pr = arr(o.probabilities()).reshape(-1)
+        return np.concatenate([arr(o.rates()).reshape(-1), pr])
 
 
 def body(c):
